@@ -1193,7 +1193,45 @@ def badonion(rng):
     return {"cfg": _cfg(rng, n), "ops": ops}
 
 
-FAMILIES = {"badonion": badonion, "inflightadd": inflightadd, "openshut": openshut, "windowlimit": windowlimit, "tampercs": tampercs, "fwdlate": fwdlate, "asyncsign": asyncsign, "skim": skim, "batchopen": batchopen, "discomplete": discomplete, "monbcast": monbcast, "staletwo": staletwo, "bigclaim": bigclaim, "dustclose": dustclose, "slots": slots, "asynccross": asynccross, "blockedjump": blockedjump, "feecross": feecross, "opendisc": opendisc, "chainsettle": chainsettle, "crosslimit": crosslimit, "evhold": evhold, "failwin": failwin, "fanin": fanin, "inflight": inflight, "holdcell": holdcell, "stalehold": stalehold}
+def cfgreload(rng):
+    """The user changes the configuration of a channel (forwarding fee, CLTV delta, dust-exposure limit, close-fee
+    allowance); the node is written and re-read right away, a few timer ticks later (while the previous terms are
+    still honoured) and after they have expired; payments are forwarded in between (C12: the re-read node shows the same
+    channel to its user and forwards on the same terms; C02: what it forwards respects its terms)."""
+    n = 3
+    pairs = [(0, 1), (1, 2)]
+    ops, npay = [], 0
+    for _ in range(rng.choice([1, 2, 3])):
+        o = {"op": "config", "node": 1, "peer": rng.choice([0, 2])}
+        k = rng.randrange(5)
+        if k == 0:
+            o["fee_base"] = rng.choice([0, 500, 2000, 5000])
+        elif k == 1:
+            o["fee_ppm"] = rng.choice([0, 100, 1000, 10000])
+        elif k == 2:
+            o["cltv_delta"] = rng.choice([48, 50, 72, 144])
+        elif k == 3:
+            o["max_dust_msat"] = rng.choice([5000000, 50000000, 500000000])
+        else:
+            o["avoid_fee"] = rng.choice([0, 1000, 5000])
+        ops.append(o)
+        ops.append({"op": "deliver_all"})
+        if rng.random() < 0.5:
+            ops += [{"op": "tick", "node": 1}] * rng.choice([1, 3, 6])
+        if rng.random() < 0.7:
+            ops += [{"op": "reload", "node": 1}, {"op": "reconnect", "a": 0, "b": 1}, {"op": "reconnect", "a": 1, "b": 2}, {"op": "deliver_all"}]
+        if rng.random() < 0.7:
+            s_, d_ = rng.choice([(0, 2), (2, 0), (0, 1), (1, 2)])
+            ops += [{"op": "send", "from": s_, "to": d_, "amt": rng.choice(["big", "justabove", "dust"])}, {"op": "deliver_all"}]
+            npay += 1
+        if rng.random() < 0.4:
+            ops += [{"op": "tick", "node": 1}] * rng.choice([2, 6])
+            ops += [{"op": "reload", "node": 1}, {"op": "reconnect", "a": 0, "b": 1}, {"op": "reconnect", "a": 1, "b": 2}, {"op": "deliver_all"}]
+    ops += _wind_down(npay, rng, pairs)
+    return {"cfg": _cfg(rng, n), "ops": ops}
+
+
+FAMILIES = {"cfgreload": cfgreload, "badonion": badonion, "inflightadd": inflightadd, "openshut": openshut, "windowlimit": windowlimit, "tampercs": tampercs, "fwdlate": fwdlate, "asyncsign": asyncsign, "skim": skim, "batchopen": batchopen, "discomplete": discomplete, "monbcast": monbcast, "staletwo": staletwo, "bigclaim": bigclaim, "dustclose": dustclose, "slots": slots, "asynccross": asynccross, "blockedjump": blockedjump, "feecross": feecross, "opendisc": opendisc, "chainsettle": chainsettle, "crosslimit": crosslimit, "evhold": evhold, "failwin": failwin, "fanin": fanin, "inflight": inflight, "holdcell": holdcell, "stalehold": stalehold}
 
 
 def make(rng, family, count):
